@@ -262,6 +262,9 @@ def head [Zero α] (t : Table α) (layoutObs : CS α) (layoutSamp : Table α →
 
 /-! ## The property, stated on observations only -/
 
+/-- Boolean equality through `DecidableEq` (so that it is equality, whatever `BEq` instance is derived) -/
+def eqb {β : Type} [DecidableEq β] (a b : β) : Bool := decide (a = b)
+
 def errOf {β : Type} : Except Err β → Option Err
   | .ok _ => none
   | .error e => some e
@@ -285,12 +288,12 @@ open Codec in
 def resultClauses [DecidableEq α] (t r : Table α) (ax : Axis) (kept : List Id) : Verdict :=
   allV [
     chk "result-shape" r.wfb,
-    chk "kept-ids-in-order" (r.ids ax == kept),
-    chk "other-axis-ids" (r.ids ax.other == t.ids ax.other),
-    chk "vectors-by-id" (kept.all (fun id => r.vec? ax id == t.vec? ax id)),
-    chk "metadata-by-id" (((r.md ax).isSome == (t.md ax).isSome) && kept.all (fun id => r.mdOf? ax id == t.mdOf? ax id)),
-    chk "other-axis-metadata" (r.md ax.other == t.md ax.other),
-    chk "type" (r.ttype == t.ttype)]
+    chk "kept-ids-in-order" (eqb (r.ids ax) kept),
+    chk "other-axis-ids" (eqb (r.ids ax.other) (t.ids ax.other)),
+    chk "vectors-by-id" (kept.all (fun id => eqb (r.vec? ax id) (t.vec? ax id))),
+    chk "metadata-by-id" ((eqb (r.md ax).isSome (t.md ax).isSome) && kept.all (fun id => eqb (r.mdOf? ax id) (t.mdOf? ax id))),
+    chk "other-axis-metadata" (eqb (r.md ax.other) (t.md ax.other)),
+    chk "type" (eqb r.ttype t.ttype)]
 
 structure FilterObs (α : Type) where
   result : Except Err (Table α)
@@ -303,29 +306,29 @@ open Codec in
 def verdictFilter [DecidableEq α] (t : Table α) (ax : Axis) (keep : Keep α) (invert inplace : Bool)
     (o : FilterObs α) : Verdict :=
   match keep with
-  | .other => chk "non-iterable-non-function-is-an-error" ((errOf o.result).isSome && o.after == t)
+  | .other => chk "non-iterable-non-function-is-an-error" ((errOf o.result).isSome && eqb o.after t)
   | .ids l =>
     if l.all (fun id => (t.ids ax).contains id) then
       match o.result with
       | .error _ => some "known-ids-must-not-raise"
       | .ok r => allV [resultClauses t r ax (keptIds t ax keep invert),
-                       chk "no-predicate-calls" (o.calls == []),
-                       chk "receiver" (o.after == (if inplace then r else t))]
+                       chk "no-predicate-calls" (eqb o.calls []),
+                       chk "receiver" (eqb o.after (if inplace then r else t))]
     else
       allV [chk "unknown-id-is-an-error" (errOf o.result).isSome,
-            chk "unknown-id-leaves-table-unchanged" (o.after == t)]
+            chk "unknown-id-leaves-table-unchanged" (eqb o.after t)]
   | .pred _ =>
     match o.result with
     | .error _ => some "predicate-filter-must-not-raise"
     | .ok r => allV [
-        chk "calls-every-id-once-in-order" (o.calls.map (·.id) == t.ids ax),
-        chk "calls-true-vector" (o.calls.all (fun c => t.vec? ax c.id == some c.vec)),
-        chk "calls-metadata" (o.calls.all (fun c => t.mdOf? ax c.id == c.md)),
+        chk "calls-every-id-once-in-order" (eqb (o.calls.map (·.id)) (t.ids ax)),
+        chk "calls-true-vector" (o.calls.all (fun c => eqb (t.vec? ax c.id) (some c.vec))),
+        chk "calls-metadata" (o.calls.all (fun c => eqb (t.mdOf? ax c.id) c.md)),
         resultClauses t r ax (keptIds t ax keep invert),
-        chk "receiver" (o.after == (if inplace then r else t)),
+        chk "receiver" (eqb o.after (if inplace then r else t)),
         chk "predicate-equals-idlist"
           (match o.viaIds with
-           | some (.ok r2) => r2 == r
+           | some (.ok r2) => eqb r2 r
            | _ => false)]
 
 def holdsFilter [DecidableEq α] (t : Table α) (ax : Axis) (keep : Keep α) (invert inplace : Bool)
@@ -339,7 +342,9 @@ inductive REAxis where
   deriving Repr, DecidableEq
 
 def REAxis.touches : REAxis → Axis → Bool
-  | .one a, b => a == b
+  | .one .obs, .obs => true
+  | .one .samp, .samp => true
+  | .one _, _ => false
   | .whole, _ => true
 
 structure CallObs (α : Type) where
@@ -360,13 +365,13 @@ def verdictRemoveEmpty [Zero α] [DecidableEq α] (t : Table α) (which : REAxis
     let es := if which.touches .samp then nonEmptyIds t .samp else t.samp
     allV [
       chk "result-shape" r.wfb,
-      chk "exactly-the-nonzero-observations" (r.obs == eo),
-      chk "exactly-the-nonzero-samples" (r.samp == es),
-      chk "cells-by-id" (eo.all (fun o => es.all (fun s => r.cell? o s == t.cell? o s))),
-      chk "metadata-by-id" (((r.omd.isSome == t.omd.isSome) && eo.all (fun o => r.mdOf? .obs o == t.mdOf? .obs o)) &&
-                            ((r.smd.isSome == t.smd.isSome) && es.all (fun s => r.mdOf? .samp s == t.mdOf? .samp s))),
-      chk "type" (r.ttype == t.ttype),
-      chk "receiver" (o.after == (if inplace then r else t))]
+      chk "exactly-the-nonzero-observations" (eqb r.obs eo),
+      chk "exactly-the-nonzero-samples" (eqb r.samp es),
+      chk "cells-by-id" (eo.all (fun o => es.all (fun s => eqb (r.cell? o s) (t.cell? o s)))),
+      chk "metadata-by-id" (((eqb r.omd.isSome t.omd.isSome) && eo.all (fun o => eqb (r.mdOf? .obs o) (t.mdOf? .obs o))) &&
+                            ((eqb r.smd.isSome t.smd.isSome) && es.all (fun s => eqb (r.mdOf? .samp s) (t.mdOf? .samp s)))),
+      chk "type" (eqb r.ttype t.ttype),
+      chk "receiver" (eqb o.after (if inplace then r else t))]
 
 def holdsRemoveEmpty [Zero α] [DecidableEq α] (t : Table α) (which : REAxis) (inplace : Bool)
     (o : CallObs α) : Bool :=
@@ -375,7 +380,7 @@ def holdsRemoveEmpty [Zero α] [DecidableEq α] (t : Table α) (which : REAxis) 
 open Codec in
 def verdictHead [DecidableEq α] (t : Table α) (n m : Int) (o : CallObs α) : Verdict :=
   if n ≤ 0 ∨ m ≤ 0 then
-    allV [chk "non-positive-size-is-an-error" (errOf o.result).isSome, chk "receiver-unchanged" (o.after == t)]
+    allV [chk "non-positive-size-is-an-error" (errOf o.result).isSome, chk "receiver-unchanged" (eqb o.after t)]
   else
     match o.result with
     | .error _ => some "head-must-not-raise"
@@ -384,13 +389,13 @@ def verdictHead [DecidableEq α] (t : Table α) (n m : Int) (o : CallObs α) : V
       let es := t.samp.take m.toNat
       allV [
         chk "result-shape" r.wfb,
-        chk "leading-n-observations" (r.obs == eo),
-        chk "leading-m-samples" (r.samp == es),
-        chk "cells-by-id" (eo.all (fun o => es.all (fun s => r.cell? o s == t.cell? o s))),
-        chk "metadata-by-id" (((r.omd.isSome == t.omd.isSome) && eo.all (fun o => r.mdOf? .obs o == t.mdOf? .obs o)) &&
-                              ((r.smd.isSome == t.smd.isSome) && es.all (fun s => r.mdOf? .samp s == t.mdOf? .samp s))),
-        chk "type" (r.ttype == t.ttype),
-        chk "receiver-unchanged" (o.after == t)]
+        chk "leading-n-observations" (eqb r.obs eo),
+        chk "leading-m-samples" (eqb r.samp es),
+        chk "cells-by-id" (eo.all (fun o => es.all (fun s => eqb (r.cell? o s) (t.cell? o s)))),
+        chk "metadata-by-id" (((eqb r.omd.isSome t.omd.isSome) && eo.all (fun o => eqb (r.mdOf? .obs o) (t.mdOf? .obs o))) &&
+                              ((eqb r.smd.isSome t.smd.isSome) && es.all (fun s => eqb (r.mdOf? .samp s) (t.mdOf? .samp s)))),
+        chk "type" (eqb r.ttype t.ttype),
+        chk "receiver-unchanged" (eqb o.after t)]
 
 def holdsHead [DecidableEq α] (t : Table α) (n m : Int) (o : CallObs α) : Bool :=
   (verdictHead t n m o).isNone
@@ -404,8 +409,8 @@ def holdsKernelIds [Zero α] [DecidableEq α] (cs : CS α) (ids : List Id) (md :
     | .error _ => false
     | .ok o =>
       let mask := ids.map (fun id => keep.contains id ^^ invert)
-      o.cs.wfb && o.cs.toDense == filterMask cs.toDense mask && o.cs.nMinor == cs.nMinor &&
-      o.ids == filterMask ids mask && o.md == md.map (filterMask · mask) && o.calls == []
+      o.cs.wfb && eqb o.cs.toDense (filterMask cs.toDense mask) && eqb o.cs.nMinor cs.nMinor &&
+      eqb o.ids (filterMask ids mask) && eqb o.md (md.map (filterMask · mask)) && eqb o.calls []
   else (errOf out).isSome
 
 /-! ## The model's observations -/
